@@ -31,28 +31,7 @@ SUBS.append(Sub("equal-size-scripts", run, kind="enum", enumerate=lambda tier: c
 SUBS.append(Sub("fill-level-scripts", run, kind="enum", enumerate=lambda tier: container.fill_level_cases(), shards=(8, 16),
                 rule="every table length 1..18, 20, 32 x fill levels {full-2, full-1, full} (all live blocks of distinct types: nine writable, seven undecodable) x 3 type orders x "
                      "scripts (add / set an absent type, replace / set / same-size-replace present ones, remove first then add); finite, enumerated", nontrivial_required=False))
-def run_optimised(ctx, case):
-    """the same enumerated scripts in a child interpreter started with -O (assert statements compiled away): a side effect that lives
-    inside an assert is gone there. The child is this very check restricted to one sub-check; its first finding is relayed."""
-    import os
-    import subprocess
-    import sys
+from ..core import optimised_child_sub  # noqa: E402
 
-    from .. import env
-
-    cmd = [sys.executable, "-O", "-X", "faulthandler", "-m", "vf.main", "C09", "--tier", "quick", "--only", case["sub"], "--workers", "4"]
-    p = subprocess.run(cmd, cwd=env.VERIF_DIR, env=dict(os.environ, VERIF_NESTED="1", VERIF_FAST_FAIL="1"), capture_output=True, text=True, timeout=900)
-    keys = [line.strip() for line in p.stdout.splitlines() if line.startswith("  C09/")]
-    if p.returncode == 1 and keys:
-        k, _, what = keys[0].partition(": ")
-        ctx.fail("python-O/" + k.split("/", 2)[2], "with assertions disabled (python -O): " + what)
-    elif p.returncode != 0:
-        raise env.HarnessError(f"child interpreter ended with {p.returncode}: {(p.stdout + p.stderr)[-600:]}")
-    summary = next((line for line in p.stdout.splitlines() if line.startswith("[C09]")), "")
-    ctx.case(case, True, labels=["python -O", summary[:80]])
-
-
-SUBS.append(Sub("scripts-under-python-O", run_optimised, kind="enum", enumerate=lambda tier: iter([{"sub": "fill-level-scripts"}, {"sub": "equal-size-scripts"}]), shards=(2, 2),
-                rule="the two enumerated script sets once more in a child interpreter started with -O (no assert statements): one case = one whole sub-check in the child",
-                nontrivial_required=False))
+SUBS.append(optimised_child_sub("C09", ["fill-level-scripts", "equal-size-scripts"], name="scripts-under-python-O"))
 TIME_BUDGET = {"quick": 150, "thorough": 1500}
